@@ -154,7 +154,8 @@ def run(m: Model, r: Report, tier: str) -> None:
         if cl is None:
             continue
         n_cl += 1
-        calls_ = [ast.unparse(n.func) for n in ast.walk(cl.node) if isinstance(n, ast.Call)]
+        from sa.util import subst_locals as _slg
+        calls_ = [ast.unparse(n.func) for n in ast.walk(_slg(cl.node, cl.node)) if isinstance(n, ast.Call)]      # (a local alias of self.writer is resolved)
         r.check("self.writer.close" in calls_ and "self.writer.wait_closed" in calls_ and not any(c.endswith(".abort") for c in calls_), "R3", f"{cl.qualname}#graceful-close",
                 f"close() calls {calls_}: it must close the stream writer gracefully and wait for it; abort() discards the messages still in the send buffer, "
                 "so the peer sees only a prefix of what was written", loc=cl.loc)
